@@ -5,7 +5,7 @@ import re
 # one representative per character category, the characters that are significant after a sizing
 # prefix, and the words the tokenizer/reader treat specially
 A_CAT = ['\\', '{', '}', '$', '&', '\n', '\r', '#', '^', '_', '\x00', ' ', '\t', 'a', '.', '~', '%', '\x7f',
-         '[', ']', '(', ')', '*', '<', '>', '|',
+         '[', ']', '(', ')', '*', '<', '>', '|', '\ufeff', '\xa0',
          'begin', 'end', 'item', 'left', 'big', 'verbatim', 'equation', 'cup', 'textbf', 'def', 'section',
          'label', 'newcommand', 'e']
 A_CORE = ['\\', '{', '}', '$', '\n', '\x00', ' ', 'a', '%', '[', ']', '(', '*', '|', 'begin', 'end', 'item',
@@ -16,7 +16,7 @@ A_TOK = ['\\begin{e}', '\\end{e}', '\\begin{f}', '\\end{f}', '\\begin{verbatim}'
          ' ', 'a', '.', '(', '|', '\\left', '\\left(', '\\big.', '\\cup', '\\textbf{', '\\label{', '\\section{',
          '\\def\\x{', '\\newcommand', '\\begin', '\\end',
          # environment names that are not a single word
-         '\\begin{ }', '\\end{ }', '\\begin{\\a }', '\\end{\\a }', '\r', '\\section{a}[b]', '\\def{x}{']
+         '\\begin{ }', '\\end{ }', '\\begin{\\a }', '\\end{\\a }', '\r', '\\section{a}[b]', '\\def{x}{', '\\begin{document}', '\\end{document}', '{e}']
 A_TOK_CORE = ['\\begin{e}', '\\end{e}', '\\end{f}', '\\begin{verbatim}', '\\end{verbatim}', '\\begin{equation}',
               '\\begin{itemize}', '\\end{itemize}', '\\item', '\\x', '\\x{', '\\x[', '{', '}', '[', ']', '$', '$$',
               '\\(', '\\]', '\\\\', '%', '\n', ' ', 'a', '\\left(', '\\textbf{', '\\newcommand', '\\begin', '\\end', '\r',
